@@ -137,10 +137,13 @@ class VariantHeaderMetadata:
         return id in self._header._dict[self._kind]
 
     def __iter__(self):
-        return iter(list(self._header._dict[self._kind]))
+        return iter(self.keys())
 
     def keys(self):
-        return list(self._header._dict[self._kind])
+        # [probe] FILTER/INFO/FORMAT share one id dictionary: keys come in the order in which the
+        # ids were first defined under ANY of the three kinds
+        d = self._header._dict[self._kind]
+        return [k for k in self._header._idorder if k in d]
 
     def __len__(self):
         return len(self._header._dict[self._kind])
@@ -200,6 +203,7 @@ class VariantHeader:
     def __init__(self, doc=None):
         self._lines = []
         self._dict = {"FORMAT": {}, "INFO": {}, "FILTER": {}}
+        self._idorder = []
         self._samples = []
         if doc is not None:
             self._samples = list(doc["samples"])
@@ -226,11 +230,10 @@ class VariantHeader:
             # [probe] a second definition of a live ID is dropped, the first one stays
             return
         self._lines.append(_HLine(kind, kind, None, attrs))
-        if id in self._dict[kind]:
-            # [probe] re-definition after remove_header(): the dictionary entry is updated in place (keeps its position)
-            self._dict[kind][id] = dict(attrs)
-        else:
-            self._dict[kind][id] = dict(attrs)
+        # [probe] re-definition after remove_header(): the dictionary entry is updated in place (keeps its position)
+        self._dict[kind][id] = dict(attrs)
+        if id not in self._idorder:
+            self._idorder.append(id)
 
     def _remove(self, kind, id):
         self._lines = [l for l in self._lines if not (l.type == kind and l.attrs.get("ID") == id)]
@@ -272,6 +275,8 @@ class VariantHeader:
         for l in h._lines:
             if l.type in h._dict:
                 h._dict[l.type][l.attrs["ID"]] = dict(l.attrs)
+                if l.attrs["ID"] not in h._idorder:
+                    h._idorder.append(l.attrs["ID"])
         return h
 
     def add_meta(self, key, value=None, items=None):
@@ -552,6 +557,7 @@ class VariantRecordSample:
         if key not in r._fmt:
             # [probe] a new key is appended to the record's FORMAT for all samples
             r._fmt.append(key)
+            r._new_keys.add(key)
             for c in r._calls:
                 c[key] = self._missing(key)
         self._d[key] = v
@@ -599,7 +605,7 @@ class VariantRecordSample:
     def phased(self, value):
         if "GT" not in self._r._fmt:
             raise ValueError("Cannot set phased before genotype is set")  # [probe]
-        self._d["phased"] = bool(value)
+        self._d["phased"] = value if isinstance(value, SymBool) else bool(value)
 
 
 class VariantRecord:
@@ -614,6 +620,7 @@ class VariantRecord:
         self._filter = list(d.get("filter") or [])
         self._info = dict(d.get("info") or {})
         self._fmt = list(d.get("format") or [])
+        self._new_keys = set()  # FORMAT keys added in memory (not present when the record was read)
         self._calls = []
         for c in d["calls"]:
             cc = {}
@@ -666,7 +673,9 @@ class VariantRecord:
                 # [probe] "[E::vcf_format] Invalid BCF, the FORMAT tag id=.. not present in the header"
                 raise OSError(22, "Can't write record: Invalid argument")
         calls = []
-        for c in self._calls:
+        corrupt = False
+        n = len(self._calls)
+        for i, c in enumerate(self._calls):
             cc = {}
             for k in self._fmt:
                 v = c[k]
@@ -674,14 +683,32 @@ class VariantRecord:
                     if len(v) == 0:
                         v = (None,)  # [probe] an empty GT is written '.' and reads (None,)
                     cc["GT"] = tuple(v)
+                    continue
+                meta = writer_header._dict["FORMAT"][k]
+                if meta["Number"] != "1" and meta["Type"] == "String" and tuple(v) == (None,):
+                    # [probe] a None/unset String vector is written as an EMPTY field; htslib re-reads an empty
+                    # field as ('.',) in the last sample column and as (None,) in every other column.
+                    # If the key was added in memory and NO sample has a value, a NUL byte is written per
+                    # sample instead: with >= 2 samples the file cannot be parsed any more ("truncated file"),
+                    # with one sample the field re-reads as (None,).
+                    if k in self._new_keys and all(tuple(x[k]) == (None,) for x in self._calls):
+                        if n >= 2:
+                            corrupt = True
+                        cc[k] = (None,)
+                    else:
+                        cc[k] = (".",) if i == n - 1 else (None,)
+                elif meta["Number"] != "1" and meta["Type"] != "String":
+                    raise Unsupported("pysam model: serialisation of %s (%s vector)" % (k, meta["Type"]))
                 else:
-                    cc[k] = _reread(writer_header, k, v)
+                    cc[k] = tuple(v) if isinstance(v, (tuple, list)) else v
             if "GT" in self._fmt:
-                cc["phased"] = True if len(cc["GT"]) == 1 else bool(c["phased"])
+                ph = c["phased"]
+                cc["phased"] = True if len(cc["GT"]) == 1 else (ph if isinstance(ph, SymBool) else bool(ph))
             else:
                 cc["phased"] = False
             calls.append(cc)
         return dict(
+            corrupt=corrupt,
             chrom=self.chrom,
             pos=self.pos,
             id=self.id,
@@ -698,21 +725,6 @@ class VariantRecord:
 class CorruptOutput(Exception):
     """Model-side marker: htslib wrote bytes that no VCF parser accepts (the real
     side observes this as an OSError on re-reading the written file)."""
-
-
-def _reread(header, key, v):
-    meta = header._dict["FORMAT"][key]
-    number, typ = meta["Number"], meta["Type"]
-    if number == "1":
-        return v
-    v = tuple(v)
-    if typ == "String":
-        if v == (None,):
-            # [probe] an unset String vector is written as an EMPTY field and reads back ('.',) -
-            # unless no sample of the record has a value: then htslib emits NUL bytes (handled by the writer)
-            return (".",)
-        return v
-    return v
 
 
 # ---------------------------------------------------------------------------
@@ -768,7 +780,15 @@ class VariantFile:
         self._publish()
 
     def _publish(self):
-        doc = dict(samples=list(self.header._samples), header=self.header._doc_lines(), records=list(self._written))
+        recs = []
+        corrupt = False
+        for r in self._written:
+            r = dict(r)
+            corrupt = r.pop("corrupt", False) or corrupt
+            recs.append(r)
+        doc = dict(samples=list(self.header._samples), header=self.header._doc_lines(), records=recs)
+        if corrupt:
+            doc["corrupt"] = True
         if isinstance(self._target, MemFile):
             self._target.doc = doc
         else:
